@@ -210,6 +210,23 @@ def dfs(factory_spec, cfg, bound, prefix=(), max_steps=400, cap=None, recurse=Tr
     return st, children
 
 
+# Early stop: once a few violations that are not listed as known findings have been found, the remaining work
+# units are abandoned (the verdict is already "violation"; on a broken tree many runs only end at the horizon
+# and exploring all of them would take very long).  The runner installs the predicate.
+EARLY_STOP = None
+EARLY_STOP_AFTER = 3
+
+
+def _should_stop(st):
+    if EARLY_STOP is None:
+        return False
+    n = 0
+    for v in st.violations:
+        if v.get("oracle") != "HARNESS" and EARLY_STOP(v):
+            n += 1
+    return n >= EARLY_STOP_AFTER
+
+
 # ---- parallel driver -------------------------------------------------------
 def _task(args):
     factory_spec, cfg, bound, prefix, max_steps, cap, want_fp = args
@@ -250,12 +267,16 @@ def explore_configs(factory_spec, cfgs, bound, max_steps=400, cap_per_task=None,
                     want_fp=False, deadline=None):
     """DFS over many configurations in parallel.  Work unit = (cfg, first-level
     alternative).  `seed` only permutes the order in which units are handed out."""
+    global _pool
     total = Stats()
     tasks = []
     for cfg in cfgs:
         if split:
             st, children = dfs(factory_spec, cfg, bound, (), max_steps, None, recurse=False, want_fp=want_fp)
             total.merge(st)
+            if _should_stop(total):
+                total.capped = True
+                return total
             for ch in children:
                 tasks.append((factory_spec, cfg, bound, ch, max_steps, cap_per_task, want_fp))
         else:
@@ -267,10 +288,15 @@ def explore_configs(factory_spec, cfgs, bound, max_steps=400, cap_per_task=None,
     chunk = max(1, len(tasks) // (16 * 8))
     for st in p.imap_unordered(_task, tasks, chunksize=chunk):
         total.merge(st)
+        if _should_stop(total):
+            total.capped = True
+            total.stopped_early = True
+            p.terminate()
+            _pool = None
+            break
         if deadline is not None and time.time() > deadline:
             total.capped = True
             p.terminate()
-            global _pool
             _pool = None
             break
     return total
@@ -349,6 +375,9 @@ def bfs(factory_spec, cfg, depth, seed=0, max_states=None, max_violations=20):
                     nxt.append(hh)
                     if len(st.samples) < 6 and len(hh) == d + 1 and (len(nxt) % 97 == 1):
                         st.samples.append({"cfg": cfg, "history": hh})
+        if _should_stop(st):
+            st.capped = True
+            break
         # canonical order so that the explored set does not depend on worker timing
         nxt.sort()
         frontier = nxt
